@@ -396,6 +396,12 @@ def ones_like(a, dtype=None, **kw):
     return _ozeros(_np.shape(a), 1.0)
 
 
+def empty_like(a, dtype=None, **kw):
+    if anysym(a) or dtype in (None, float, _np.float64, object):
+        return _ozeros(_np.shape(a))
+    return _np.empty_like(a, dtype=dtype, **kw)
+
+
 def full_like(a, fill, **kw):
     r = _np.empty(_np.shape(a), dtype=object)
     r[...] = sa(fill) if isinstance(fill, (list, tuple)) else fill
@@ -658,9 +664,70 @@ def nan_to_num(x, *a, **k):
     return x if anysym(x) else _np.nan_to_num(x, *a, **k)
 
 
+def gradient(f, *varargs, axis=None, edge_order=1):
+    """numpy.gradient for 1-D data (numpy's own code allocates a float output): unit, scalar or coordinate spacing"""
+    if not anysym(f, *varargs):
+        return _np.gradient(f, *varargs, axis=axis, edge_order=edge_order)
+    f = sa(f)
+    if f.ndim != 1 or edge_order != 1 or len(varargs) > 1 or f.shape[0] < 2:
+        raise UnsupportedOp('gradient of symbolic data: only 1-D, edge_order=1')
+    n = f.shape[0]
+    out = _np.empty(n, dtype=object)
+    if not varargs or _np.ndim(varargs[0]) == 0:
+        h = varargs[0] if varargs else 1.0
+        for i in range(1, n - 1):
+            out[i] = (f[i + 1] - f[i - 1]) / (2 * h)
+        out[0] = (f[1] - f[0]) / h
+        out[n - 1] = (f[n - 1] - f[n - 2]) / h
+    else:
+        x = sa(varargs[0])
+        d = [x[i + 1] - x[i] for i in range(n - 1)]
+        for i in range(1, n - 1):
+            hs, hd = d[i - 1], d[i]
+            out[i] = (hs * hs * f[i + 1] + (hd * hd - hs * hs) * f[i] - hd * hd * f[i - 1]) / (hs * hd * (hd + hs))
+        out[0] = (f[1] - f[0]) / d[0]
+        out[n - 1] = (f[n - 1] - f[n - 2]) / d[n - 2]
+    return out.view(SymArray)
+
+
+def convolve(a, v, mode='full'):
+    if not anysym(a, v):
+        return _np.convolve(a, v, mode)
+    a, v = sa(a), sa(v)
+    if a.ndim != 1 or v.ndim != 1:
+        raise UnsupportedOp('convolve: 1-D only')
+    n, m = a.shape[0], v.shape[0]
+    full = _np.empty(n + m - 1, dtype=object)
+    for k in range(n + m - 1):
+        acc = 0.0
+        for i in range(max(0, k - m + 1), min(n, k + 1)):
+            acc = acc + a[i] * v[k - i]
+        full[k] = acc
+    if mode == 'full':
+        r = full
+    elif mode == 'same':
+        st = (min(n, m) - 1) // 2
+        r = full[st:st + max(n, m)]
+    elif mode == 'valid':
+        r = full[min(n, m) - 1:max(n, m)]
+    else:
+        raise ValueError(mode)
+    return r.view(SymArray)
+
+
+def mean(a, axis=None, **kw):
+    if not anysym(a):
+        return _np.mean(a, axis=axis, **kw)
+    a = sa(a)
+    cnt = a.size if axis is None else a.shape[axis]
+    return asum(a, axis=axis) / cnt
+
+
 for _n, _f in dict(zeros=zeros, ones=ones, zeros_like=zeros_like, ones_like=ones_like, full_like=full_like,
                    empty=empty, linspace=linspace, where=where, sum=asum, min=amin, max=amax, amin=amin,
                    amax=amax, average=average, einsum=einsum, isnan=isnan, any=_any, all=_all,
                    linalg=linalg, array=array, asarray=asarray, ascontiguousarray=ascontiguousarray, asanyarray=asanyarray,
-                   select=select, isclose=isclose, allclose=allclose, nan_to_num=nan_to_num).items():
+                   select=select, isclose=isclose, allclose=allclose, nan_to_num=nan_to_num, gradient=gradient, convolve=convolve,
+                   mean=mean).items():
     setattr(np, _n, _f)
+np.empty_like = empty_like
